@@ -107,7 +107,7 @@ def run_single(exe, path, slack, prefix, want_hang_site=True, recover=False):
     # consequence of memory that is already wrong); UBSan reports before it are all collected
     # (recover=True, used for inputs that stalled their batch: keep going after reports so that a hang behind an
     # invalid read can show itself)
-    env = sanlog.env_for("fuzz", prefix, extra_asan="halt_on_error=%d" % (0 if recover else 1))
+    env = sanlog.env_for("fuzz", prefix, extra_asan="halt_on_error=%d:max_allocation_size_mb=%d" % (0 if recover else 1, MAX_ALLOC_MB))
     env["SVT_LOG"] = "0"
     args = ["--slack", str(slack), path]
     r = core.run([exe] + args, timeout=SINGLE_TIMEOUT, env=env)
@@ -168,7 +168,7 @@ def run_pack(exe, pack, n_inputs, slack, prefix, want_cov=True, budget=None, kee
     env = {"SVT_LOG": "0", "ASAN_SYMBOLIZER_PATH": "/usr/bin/llvm-symbolizer-14",
            # reports go to stderr here (discarded): this pass only finds *which* inputs are dirty
            "ASAN_OPTIONS": "halt_on_error=0:detect_leaks=0:detect_stack_use_after_return=1:allocator_may_return_null=1:"
-                           "handle_abort=1:symbolize=0:print_summary=0",
+                           "handle_abort=1:symbolize=0:print_summary=0:max_allocation_size_mb=%d" % MAX_ALLOC_MB,
            "UBSAN_OPTIONS": "halt_on_error=0:print_stacktrace=0:symbolize=0"}
     covfile = prefix + ".cov"
     while start < n_inputs:
@@ -241,6 +241,13 @@ def run_pack(exe, pack, n_inputs, slack, prefix, want_cov=True, budget=None, kee
 # ------------------------------------------------------------------ the check
 def _overread_open(chk):
     return any(core.match_known(PID, k, chk.known) is not None for k in OVERREAD_KEYS)
+
+
+# A mutated sequence header can declare pictures of up to 65536x65536 samples; the decoder then allocates and clears
+# gigabytes (minutes under ASan) before it rejects the stream.  The allocator refuses single blocks above this size
+# (malloc returns NULL: the decoder must, and does, turn that into an error return), which keeps such inputs cheap
+# without hiding anything: an unchecked NULL would be reported as a SEGV.
+MAX_ALLOC_MB = 512
 
 
 class Budget:
